@@ -11,7 +11,8 @@ import "strings"
 //     algorithm of the key type (RSA: rsa-sha2-256, rsa-sha2-512, ssh-rsa);
 //   - with a server-sig-algs extension, the first of the signer's algorithms
 //     that the server lists is used (certificate keys use the corresponding
-//     certificate algorithm name);
+//     certificate algorithm name, and the server may list either name);
+//     unknown names in the list are ignored;
 //   - without the extension, or without overlap, the key format name itself is
 //     used if the signer supports it, otherwise the signer cannot be offered.
 //
@@ -40,7 +41,8 @@ func ClientAlgo(key *Key, restrict []string, sigAlgs *string) (exact string, acc
 	server := strings.Split(*sigAlgs, ",")
 	var inter []string
 	for _, a := range signerAlgos {
-		if contains(server, a) && contains(key.SigFormats(), a) {
+		// for a certificate key the server may also name the certificate algorithm itself
+		if (contains(server, a) || (suffix != "" && contains(server, a+suffix))) && contains(key.SigFormats(), a) {
 			inter = append(inter, a)
 		}
 	}
